@@ -404,9 +404,13 @@ func (c *channel) reconnect(maxRetries float64) {
 			return
 		}
 		c.streamCtx, c.cancelStream = context.WithCancel(c.parentCtx)
-		c.gorumsStream, err = c.gorumsClient.NodeStream(c.streamCtx)
+		var stream ordering.Gorums_NodeStreamClient
+		stream, err = c.gorumsClient.NodeStream(c.streamCtx)
 		vEmit("ReconNewStream", c.node.ID(), 0, "who", maxRetries, "ok", err == nil)
 		if err == nil {
+			// keep the old (broken) stream object when the attempt fails: the
+			// receiver may be about to read from c.gorumsStream
+			c.gorumsStream = stream
 			c.streamBroken.clear()
 			c.streamMut.Unlock()
 			select {
